@@ -367,6 +367,22 @@ func runMemCase(c *memCase) {
 					viol("op %d: a Close that was waiting for the last reader never returned although the reader has left (reader's result: %v)", i, rerr)
 					ob.R = 1
 				}
+				if entered && len(op.Plan) == 0 {
+					// the last reader has left while a Close was pending: its release must still have put the pages back to
+					// no-access before anything else happened to them (no reader is running between the two)
+					sawNone, sawRO := false, false
+					for _, e := range mc.events {
+						if e.C == 11 {
+							sawRO = true
+						} else if sawRO && (e.C == 10 || e.C == 12) { // the first protection change after the pages were opened for reading
+							sawNone = e.C == 10 && e.OK
+							break
+						}
+					}
+					if sawRO && !sawNone {
+						viol("op %d: the last reader left while a Close was waiting and the pages were not set back to no-access (they stay readable until the closer gets to run)", i)
+					}
+				}
 				if rerr != nil && ob.R == 0 {
 					ob.R = 1
 					if isClosedErr(rerr) {
